@@ -717,6 +717,22 @@ class Poly2d:
         return Poly2d._fit3(aa_, Ain, bb_, Ab)
 
     @staticmethod
+    def _lstsq(AA: np.ndarray, bb: np.ndarray, affine_terms: List[int]) -> np.ndarray:
+        """
+        Least squares in two steps: affine terms first, then all terms on what is left.
+
+        Layout of the points can leave higher order terms undetermined (points on the
+        image border only, on two rows or columns, corners of a 45 degree rotated
+        image). Minimum norm solution of the second step then keeps those terms at
+        zero for affinely related points, instead of trading them against the affine
+        terms. Same as plain least squares when all terms are determined.
+        """
+        c0, *_ = np.linalg.lstsq(AA[:, affine_terms], bb, rcond=None)
+        cc, *_ = np.linalg.lstsq(AA, bb - AA[:, affine_terms] @ c0, rcond=1e-10)
+        cc[affine_terms] += c0
+        return cc
+
+    @staticmethod
     def _fit9(aa: np.ndarray, Ain: Affine, bb: np.ndarray, Ab: Affine) -> "Poly2d":
         N = aa.shape[0]
         assert N >= 9
@@ -739,7 +755,7 @@ class Poly2d:
         AA[:, 7] = AA[:, 6] * y
         AA[:, 8] = AA[:, 7] * y
 
-        cc, *_ = np.linalg.lstsq(AA, bb, rcond=-1)
+        cc = Poly2d._lstsq(AA, bb, [0, 1, 3])
 
         # denorm output side, assumes `sx==sy`
         s, _, tx, _, _, ty, *_ = ~Ab
@@ -766,7 +782,7 @@ class Poly2d:
         AA[:, 2] = x
         AA[:, 3] = x * y
 
-        cc, *_ = np.linalg.lstsq(AA, bb, rcond=-1)
+        cc = Poly2d._lstsq(AA, bb, [0, 1, 2])
         assert cc.shape == (4, 2)
 
         # denorm output side, assumes `sx==sy`
